@@ -309,6 +309,9 @@ def child(ctx, prog, limit, fault, hold, nested=False, gv_proj=False, raise_limi
     exc_obj.clear()
     after_limit = sys.getrecursionlimit()
     if hold:
+        # the caller still holds the query object: evaluate_bounded has finished it (since F22 it closes an
+        # unfinished query itself), so the variables are unbound already - before the caller lets go of it
+        out['bound_while_caller_holds_the_query'] = len(real.reg.bound()) - pre_bound
         q.close()
     q = None
     left = len(real.reg.bound())
@@ -467,6 +470,12 @@ def run_case(ctx, seed, idx, tier):
         jobs.append((limit, fault, hold, rng.random() < 0.2, rng.random() < 0.35, rng.random() < 0.5))
     # the caller's stack only a few frames below the limit it passes (limit = its own depth + 4..16): whatever
     # evaluate_bounded itself does after the abort (logging, clean-up) has next to no stack left to do it in
+    if any(l >= 400 for l in block):
+        # pinned (F22): the interpreter's own limit is LOWER than the requested one and the projection ends the
+        # evaluation at the first / second answer while a deep search is suspended - unwinding it needs the high limit
+        big = min(l for l in block if l >= 400)
+        jobs.append((big, (1, 'StopIteration'), False, False, False, True))
+        jobs.append((big, (2, 'Custom'), False, False, False, True))
     rng = random.Random((seed * 1000003 + idx) * 7 + 171)
     for h in rng.sample(range(4, 17), 2):
         jobs.append((0, None, False, False, False, False, h))
@@ -587,6 +596,8 @@ def judge(ctx, prog, job, r, idx):
         # CPython finalises the abandoned search when evaluate_bounded returns (reference counting); the unchanged tree
         # never needs a garbage collection pass for that, so needing one means something keeps the search alive
         return viol('variables_unbound_only_after_a_gc_pass', {'bound_after_gc': o['bound_after']})
+    if o.get('bound_while_caller_holds_the_query', 0) > 0:
+        return viol('variables_left_bound', {'while_the_caller_still_holds_the_query_object': o['bound_while_caller_holds_the_query']})
     if o['bound_after'] > 0 or not o['query_vars_unbound']:
         return viol('variables_left_bound', {'bound_after': o['bound_after'], 'query_vars_unbound': o['query_vars_unbound'],
                                              'needed_gc': o.get('needed_gc', False)})
